@@ -73,6 +73,12 @@ pub fn run(ctx: &mut Ctx) {
             let e = build(&lines, r.chance(1, 2), r.chance(1, 2), 0);
             // one engine in three is replaced by its twin loaded from serialized bytes
             let e = if r.chance(1, 3) { crate::mon::c08::roundtrip(&e, r.chance(1, 2)).expect("round trip of own buffer") } else { e };
+            let mut e = e;
+            if r.chance(1, 4) {
+                // a rejected load must leave the engine as it was
+                let junk: [&[u8]; 4] = [b"", b"\xd1\xd9\x3a\xaf\x07", b"garbage", b"\xd1\xd9\x3a\xaf\x00\xdc\x00\x13\x91"];
+                let _ = e.deserialize(junk[r.below(4)]);
+            }
             sels.sort();
             sels.dedup();
             let generic: BTreeSet<String> = sels.iter().cloned().collect();
